@@ -13,6 +13,7 @@ package index
 
 //@ func (*InsertionIndex).InsertNoReplace
 //@   trusted
+//@   requires valid_cid [C09]: cidvalid(key)
 //@   modifies byCid(ii, key), byMh(ii, mhof(key)), byDg(ii, digestof(mhof(key))), nrec(ii)
 //@   ensures inserted: byCid(ii, key) && byMh(ii, mhof(key)) && byDg(ii, digestof(mhof(key))) && nrec(ii) == old(nrec(ii)) + 1
 
@@ -31,3 +32,51 @@ package index
 //@ func (*InsertionIndex).Load
 //@   call[LLRB.InsertNoReplace#0] assert keeps_duplicates [C03,C11]: true
 //@   loop[0] invariant no_error [C03]: true
+
+// Representation invariant of a bucket, required by every method that slices into it:
+//   8 <= width <= 2^25  and  len * width <= len(index)
+
+//@ func (*singleWidthIndex).Less
+//@   requires bucket [C03,C09]: 8 <= s.width && s.width <= 33554432 && s.len * s.width <= len(s.index)
+//@   requires in_range [C03,C09]: 0 <= i && i < s.len
+
+//@ func (*singleWidthIndex).getAll
+//@   requires bucket [C03,C09]: 8 <= s.width && s.width <= 33554432 && s.len * s.width <= len(s.index) && s.len <= 281474976710656
+//@   loop[0] invariant cursor [C03,C09]: 0 <= idx && idx <= s.len
+//@   closure[0]
+//@     requires bucket [C03,C09]: 8 <= s.width && s.width <= 33554432 && s.len * s.width <= len(s.index)
+//@     assume search_protocol: 0 <= i && i < s.len
+//@     note sort.Search calls its predicate only on indices in [0, n) with n == int(s.len)
+//@   end
+
+//@ func (*singleWidthIndex).forEachDigest
+//@   requires bucket [C03,C09,C11]: 8 <= s.width && s.width <= 33554432
+//@   loop[0] invariant cursor [C09]: 0 <= i && i <= segmentCount && segmentCount * s.width <= len(s.index)
+
+//@ func (*singleWidthIndex).checkUnmarshalLengths
+//@   modifies s.width, s.len
+//@   ensures bucket [C03,C09,C11]: err == nil ==> 8 <= s.width && s.width <= 33554432 && s.width == width && s.len * s.width <= dataLen + extra && dataLen + extra < 9223372036854775808
+//@   ensures reject_small [C09]: width < 8 ==> err != nil
+//@   ensures unchanged_on_error [C09]: err != nil ==> s.width == old(s.width) && s.len == old(s.len)
+
+//@ func (recordSet).Less
+//@   requires in_range [C09]: 0 <= i && i < len(r) && 0 <= j && j < len(r)
+
+//@ func (recordSet).Swap
+//@   requires in_range [C09]: 0 <= i && i < len(r) && 0 <= j && j < len(r)
+
+//@ func newRecordDigest
+//@   requires valid_cid [C09]: cidvalid(r.Cid)
+//@   panic[0] by_design
+//@   call[multihash.Decode#0] assert decodes [C09]: validmh(bytesval(arg0))
+
+//@ func newRecordFromCid
+//@   requires valid_cid [C09]: cidvalid(c)
+//@   panic[0] by_design
+//@   call[multihash.Decode#0] assert decodes [C09]: validmh(bytesval(arg0))
+
+//@ func (*singleWidthIndex).Unmarshal
+//@   modifies pos(r), s.width, s.len, s.index
+//@   alloc[0] bounded_by srcend(r) - pos(r)
+//@   ensures bucket [C03,C09,C11]: err == nil ==> 8 <= s.width && s.width <= 33554432 && s.len * s.width <= len(s.index)
+//@   ensures eof_is_unexpected [C02,C09]: err != io.EOF || pos(r) > old(pos(r))
